@@ -1029,7 +1029,9 @@ class Engine:
             else:
                 res = o.v if isinstance(o, Ret) else V(None, NONE)
                 for lab, c in fc.get('ensures', []):
-                    s.oblige(f'ens/{lab}', self.spec(c, s, result=res, pre=pre_state))
+                    g = self.spec(c, s, result=res, pre=pre_state)
+                    s.oblige(f'ens/{lab}', g)
+                    if fc.get('chain_ensures'): s.assume(g)          # cut rule: a post-condition that has been obliged may be used for the following ones (lemma chains)
         return st.obs
 
 
